@@ -53,6 +53,11 @@ func NewSolver(c *Ctx, bin string) (*Solver, error) {
 		s.kind = "z3"
 		s.Args = []string{"-in", "-smt2"}
 	}
+	if p := os.Getenv("SYMGO_SMTLOG"); p != "" { // debugging aid: solver transcript
+		if f, err := os.OpenFile(p, os.O_CREATE|os.O_WRONLY|os.O_APPEND, 0o644); err == nil {
+			s.Log = f
+		}
+	}
 	if err := s.start(); err != nil {
 		return nil, err
 	}
